@@ -96,6 +96,9 @@ type Rules struct {
 	StrNotIn []string `json:"str_not_in,omitempty"`
 	StrConst *string `json:"str_const,omitempty"`
 	WellKnown string `json:"well_known,omitempty"` // email uuid uri hostname ip ipv4 ipv6
+	// WellKnownOff: the well-known rule is present with the value false (`email: false`): it demands nothing
+	// (protovalidate: `!rules.email || ...`) and no format may be published for it
+	WellKnownOff string `json:"well_known_off,omitempty"`
 	// numeric (applies to the field's own kind)
 	NumGt    *string  `json:"gt,omitempty"`
 	NumGte   *string  `json:"gte,omitempty"`
